@@ -107,8 +107,9 @@ func VerifH_C09_isolate() {
 		}
 		switch late {
 		case 0:
-			s.send(vFrame(0x0, 0x1, 3, []byte("late")))
-			sent = 4
+			// (padded: the whole frame counts against the connection window)
+			s.send(vFrame(0x0, 0x9, 3, []byte{2, 'l', 'a', 't', 'e', 0, 0}))
+			sent = 7
 		case 1:
 			s.send(vFrame(0x8, 0x0, 3, []byte{0, 0, 0, 9}))
 		case 2:
@@ -144,8 +145,8 @@ func VerifH_C09_isolate() {
 		// sent before the peer saw our RST_STREAM: the rest of the body, or the trailers
 		more := 0
 		if vBool() {
-			s.send(vFrame(0x0, 0x1, 3, []byte("6")))
-			more = 1
+			s.send(vFrame(0x0, 0x9, 3, []byte{3, '6', 0, 0, 0}))
+			more = 5
 		} else {
 			s.send(vFrame(0x1, 0x5, 3, vInsertMN))
 			ref = vRefKVAfterMN
